@@ -212,7 +212,7 @@ def run_inputs(ctx, exe, d, name, mode, lines, files_base, cls=None):
     guard = 0
     while start < total and guard < 400:
         guard += 1
-        res = core.run([exe, drv, mode, inp, str(start)], timeout=150, cpu=60, mem_mb=None, tick=(signal.SIGALRM, 1.5, 0.1))
+        res = core.run([exe, drv, mode, inp, str(start)], timeout=150, cpu=60, mem_mb=None, tick=(signal.SIGALRM, 1.5, 0.25))
         err = res.err.decode(errors="replace")
         core.discard(res)
         last_b = -1
@@ -232,6 +232,9 @@ def run_inputs(ctx, exe, d, name, mode, lines, files_base, cls=None):
             # sanitizer reports without death (recoverable UB) are still collected
             ctx.note_ub(res.ub)
             for kind, sig, text in res.san:
+                if "janet_signal_trampoline" in text:
+                    ctx.count("harness_tick_selfpipe_full")     # our own SIGALRM ticks filled the self-pipe of a busy interpreter: harness artefact
+                    continue
                 ctx.violation("%s:%s" % (pfx, sig), "sanitizer report during batch %s: %s" % (name, text[:300]), dict(files_base, **{"sanitizer.txt": text}))
             return
         culprit = lines[last_b] if 0 <= last_b < total else ""
@@ -242,6 +245,10 @@ def run_inputs(ctx, exe, d, name, mode, lines, files_base, cls=None):
                 ctx.violation("hang:unmarshal", "unmarshal did not return on input %s..." % culprit[:80], cfiles)
             else:
                 ctx.count("exercise_unbounded")   # an accepted function may legitimately loop: not judged
+        elif res.san and "janet_signal_trampoline" in res.san[0][2]:
+            ctx.count("harness_tick_selfpipe_full")
+            with ctx.lock:
+                ctx.inconclusive.append("tick-selfpipe-full:" + name)
         elif res.san:
             for kind, sig, text in res.san[:1]:
                 ctx.violation("%s:%s" % (pfx, sig), "sanitizer report on input %s...: %s" % (culprit[:80], text[:300]), dict(cfiles, **{"sanitizer.txt": text}))
